@@ -65,7 +65,18 @@ func (c *Ctx) note(format string, a ...interface{}) {
 // shared runs a rule set that is registered under another property as a rule of this one: the
 // structural condition it decides is a necessary condition of both. The obligations are relabelled
 // to this property's rule; keep selects the obligations that matter here (nil: all).
+// activeShares: the shared rules being evaluated right now (by source rule). A rule set that is run as
+// the source of a shared rule runs its own shared rules too; two rule sets that borrow from each other
+// (C04 <- C16/R3, C16 <- C04/R6) would otherwise never finish. The inner, repeated evaluation is
+// skipped: its obligations are those of the outer one.
+var activeShares = map[string]int{}
+
 func (c *Ctx) shared(rule, from, why string, keep func(o Obligation) bool, f func(sub *Ctx)) {
+	if activeShares[from] > 0 {
+		return
+	}
+	activeShares[from]++
+	defer func() { activeShares[from]-- }()
 	sub := &Ctx{P: c.P, Property: c.Property, Tier: c.Tier, Counts: map[string]int{}, Analysed: map[string]int{}}
 	f(sub)
 	n := 0
